@@ -9,11 +9,23 @@ import (
 type inMemoryStore struct {
 	entries map[string][]byte
 	l       sync.Mutex
+	// id tells this store from every other one of the process, also from one that
+	// was garbage-collected and whose address a later store got.
+	id uint64
+}
+
+var inMemoryStoreCount struct {
+	l sync.Mutex
+	n uint64
 }
 
 // NewInMemoryStore provides a Persist that stores serialized nodes in a map, usually for testing.
 func NewInMemoryStore() Persist {
-	return &inMemoryStore{}
+	inMemoryStoreCount.l.Lock()
+	inMemoryStoreCount.n++
+	id := inMemoryStoreCount.n
+	inMemoryStoreCount.l.Unlock()
+	return &inMemoryStore{id: id}
 }
 
 func (ims *inMemoryStore) Store(ctx context.Context, key string, value []byte) error {
@@ -38,5 +50,5 @@ func (ims *inMemoryStore) Load(ctx context.Context, key string) ([]byte, error) 
 }
 
 func (ims *inMemoryStore) NodeURLPrefix() string {
-	return fmt.Sprintf("%p", ims)
+	return fmt.Sprintf("%p#%d", ims, ims.id)
 }
